@@ -353,7 +353,11 @@ func (e *explorer) runOneSeen(cfgIdx int, cfg Cfg, prefix []int, expect []point,
 			defer func() {
 				if r := recover(); r != nil {
 					// synctest deadlock errors surface here (in the goroutine that called synctest.Test)
-					x.Failf("bubble/"+firstLine(fmt.Sprint(r)), "synctest: %v", r)
+					msg := fmt.Sprint(r)
+					if strings.Contains(msg, "blocked goroutines remain") && x.Failed() {
+						return // the harness already reported the leak with a precise signature
+					}
+					x.Failf("bubble/"+firstLine(msg), "synctest: %v", r)
 				}
 			}()
 			synctest.Test(e.t, func(t *testing.T) {
